@@ -117,7 +117,11 @@ func (c *FnCtx) calleeSpec(common *ssa.CallCommon) *FuncSpec {
 		}
 	}
 	// closures of in-repo functions: by relative name
-	switch v := common.Value.(type) {
+	cv := common.Value
+	if mc := closureOfLocal(cv); mc != nil {
+		cv = mc
+	}
+	switch v := cv.(type) {
 	case *ssa.MakeClosure:
 		fn := v.Fn.(*ssa.Function)
 		if fn.Pkg != nil {
